@@ -11,11 +11,15 @@ from fractions import Fraction
 from ..core import frac, call_real
 
 ID = "C04"
-LEAN_MODULE = "CKT.Props.C04"
+LEAN_MODULE = "CKT.Props.C04Mass"
 THEOREMS = [
     "CKT.C04.infinite_budget", "CKT.C04.mem_allExact", "CKT.C04.allExact_no_zero", "CKT.C04.refuses_small_budget",
     "CKT.C04.visited_ge", "CKT.C04.dfs_full_ge", "CKT.C04.mem_visited", "CKT.C04.dfs_complete",
     "CKT.C04.exact_weight_ge_one", "CKT.C04.ceilRat_eq", "CKT.C04.count_bound", "CKT.C04.counter_length_le",
+    # T04.3 mass balance (Props/C04Mass): exact mass + residual mass of the conditional tables = node probability, at every node
+    "CKT.C04.zeroSmall_zero", "CKT.C04.finish_mass", "CKT.C04.visited_eq", "CKT.C04.sum_weighted_split", "CKT.C04.dfs_mass",
+    "CKT.C04.genSorted_mass", "CKT.C04.sortPerm_perm", "CKT.C04.applyPerm_sum", "CKT.C04.genUnsorted_mass", "CKT.C04.top_table",
+    "CKT.C04.exact_plus_tail",
 ]
 RULE = ("1-4 probability vectors with 1-8 (thorough: up to 58) entries each: dyadic synthetic vectors (zeros, ties, near-zero entries; float arithmetic "
         "exact) and real gate bases; budgets N in [1, 1e6] integer / fractional / infinity; numpy.random.choice replaced by a scripted oracle whose "
